@@ -43,7 +43,8 @@ FUNC_ALIASES = [['lower', 'lowercase', 'lcase'], ['upper', 'uppercase', 'ucase']
                 ['has_capability', 'has_cap'], ['contains_japanese', 'japanese'], ['contains_kana', 'kana'],
                 ['contains_hiragana', 'hiragana'], ['contains_katakana', 'katakana'], ['contains_kanji', 'kanji']]
 OPT_ALIASES = [['maxdepth', 'depth'], ['symlinks', 'sym'], ['archives', 'arc'], ['gitignore', 'git'], ['hgignore', 'hg'],
-               ['dockerignore', 'dock'], ['nogitignore', 'nogit'], ['nohgignore', 'nohg'], ['nodockerignore', 'nodock']]
+               ['dockerignore', 'dock'], ['nogitignore', 'nogit'], ['nohgignore', 'nohg'], ['nodockerignore', 'nodock'],
+               ['regexp', 'rx']]
 KEYWORDS = {'select', 'from', 'where', 'and', 'or', 'not', 'order', 'by', 'group', 'limit', 'into', 'desc', 'asc', 'between', 'like',
             'mindepth', 'bfs', 'dfs', 'json', 'csv', 'html', 'tabs', 'lines', 'list'}
 PLAIN_COLS = {'name', 'path', 'size', 'is_dir', 'is_file', 'modified', 'uid', 'gid', 'mode', 'hardlinks', 'is_symlink', 'abspath',
@@ -67,6 +68,7 @@ EXTRA = [
     'name , size from sub , e order by size desc , name', 'ext , count(*) from . , sub group by ext order by ext',
     'name , year(curdate()) , length(upper(name)) from . limit 2', 'name , concat(curdate() , name) from . limit 2',
     'name from . where ( length(lower(name)) > 3 and ( size > 1 or year(curdate()) > 2000 ) )',
+    'name from su.* regexp', 'name from [s]ub maxdepth 1 regexp', 'name , size from e , su.* regexp dfs where name regexp ^a order by 1',
 ]
 
 
@@ -190,6 +192,8 @@ def alias_renderings(q, tier):
                 if not hit:
                     continue
                 if fam in OPT_ALIASES and not in_from:
+                    continue
+                if fam in OP_ALIASES and in_from:
                     continue
                 if fam in ARITH_ALIASES and (in_from or t in ('*',) and i > 0 and q[i - 1].lower() in ('select',)):
                     continue
